@@ -60,7 +60,7 @@ def has_hit(case):
 
 def body(c):
     # ---- mode M: the reference's own theorems, per cache kind -----------------------------------------------
-    m_runs = [("lru", 1, ["a", "b"], 3)] + [(k, cap, ["a"], 4) for k, cap in KINDS if k != "none"]
+    m_runs = [("lru", 1, ["a", "b"], 3), ("map", 1, ["a"], 4), ("lru", 2, ["a"], 4)]
     if not c.quick:
         m_runs = [(k, cap, ["a", "b"], 4) for k, cap in KINDS] + [("lru", 2, ["a"], 5)]
     for kind, cap, types, maxops in m_runs:
@@ -68,7 +68,7 @@ def body(c):
         with open(cfg, "w") as f:
             f.write(consts([1, 2], types, kind, cap, [2] if kind == "lru" and cap == 2 else [], maxops) + "SPECIFICATION Spec\n"
                     + "".join("INVARIANT %s\n" % i for i in INVARIANTS))
-        m = vlib.run_tlc("conc/LoaderCache.tla", cfg, workers=8, coverage=True, timeout=1200, xmx="8g")
+        m = vlib.run_tlc("conc/LoaderCache.tla", cfg, workers=4, coverage=True, timeout=1200, xmx="8g")
         if m.invariant_violated:
             raise vlib.ToolError("design-level failure in LoaderCache.tla (%s cap %d): %s" % (kind, cap, m.invariant_violated))
         for act in ACTIONS:
@@ -81,7 +81,7 @@ def body(c):
     cfg = c.path("Gen.cfg")
     with open(cfg, "w") as f:
         f.write(consts([1, 2], ["a"], "lru", 1, [], n) + "INIT GInit\nNEXT GNext\nINVARIANT Emit\n")
-    g = vlib.run_tlc("conc/Gen_LoaderCache.tla", cfg, workers=8, timeout=1800, keep_lines=50, xmx="8g")
+    g = vlib.run_tlc("conc/Gen_LoaderCache.tla", cfg, workers=4, timeout=1800, keep_lines=50, xmx="8g")
     c.add_tlc("G histories (2 keys, %d operations)" % n, g)
     hists = [json.loads(s) for s in sorted(set(t[1] for t in g.tagged("REPLAY")))]
     if len(hists) != 21 ** n:
@@ -91,13 +91,13 @@ def body(c):
         cfg3 = c.path("Gen3.cfg")
         with open(cfg3, "w") as f:
             f.write(consts([1, 2, 3], ["a"], "lru", 2, [], 3) + "INIT GInit\nNEXT GNext\nINVARIANT Emit\n")
-        g3 = vlib.run_tlc("conc/Gen_LoaderCache.tla", cfg3, workers=8, timeout=1800, keep_lines=50, xmx="8g")
+        g3 = vlib.run_tlc("conc/Gen_LoaderCache.tla", cfg3, workers=4, timeout=1800, keep_lines=50, xmx="8g")
         c.add_tlc("G histories (3 keys, 3 operations)", g3)
         hists3 = [json.loads(s) for s in sorted(set(t[1] for t in g3.tagged("REPLAY")))]
         if len(hists3) != 34 ** 3:
             raise vlib.ToolError("G produced %d 3-key histories, expected %d" % (len(hists3), 34 ** 3))
     rng = random.Random(c.seed)
-    n_random = 3000 if c.quick else 60000
+    n_random = 3000 if c.quick else 30000
 
     def all_cases():
         cid = 0
@@ -150,7 +150,7 @@ def body(c):
                 raise vlib.ToolError("could not build negative controls")
             st["neg"] = True
         vlib.write_ndjson(c.path("trace_v.ndjson"), neg + traces)
-        v = vlib.run_tlc("conc/LoaderCacheTrace.tla", "conc/LoaderCacheTrace.cfg", env={"TRACE": c.path("trace_v.ndjson")}, workers=8,
+        v = vlib.run_tlc("conc/LoaderCacheTrace.tla", "conc/LoaderCacheTrace.cfg", env={"TRACE": c.path("trace_v.ndjson")}, workers=4,
                          timeout=3000, keep_lines=50, xmx="12g")
         verdicts = {t[1]: (t[2], t[3], t[4]) for t in v.tagged("VERDICT")}
         c.notes.append("V chunk %d: %d histories judged in %.1fs" % (k, len(traces), v.wall))
